@@ -266,13 +266,20 @@ class GenV(N):
     gs: Param[int] = field(default_factory=lambda: 42)
 
 
+class GenC(N):
+    """a GENERATED parameter whose value is a configuration (it appears when the configuration is sealed and must be
+    sealed with it)"""
+    x: Param[int] = 0
+    gc: Param[N] = field(default_factory=lambda: Inner(x=7))
+
+
 class S2(N):
     """two sibling strings (the unterminated-string collision family)"""
     a: Param[str]
     b: Param[str] = ""
 
 
-CLASSES = {c.__name__: c for c in [K1, K2, W1, W2, S2, GenV, EH, TaskSelf, TaskSelfG, Leaf, Inner, Bag, Req, TaskA, TaskOut, Pre, Init, NewL, OldL, NewT, OldT, V1, V2]}
+CLASSES = {c.__name__: c for c in [K1, K2, W1, W2, S2, GenV, GenC, EH, TaskSelf, TaskSelfG, Leaf, Inner, Bag, Req, TaskA, TaskOut, Pre, Init, NewL, OldL, NewT, OldT, V1, V2]}
 ENUMS = {"Color": Color, "Shape": Shape, "Level": Level, "Mode": Mode, "EHKind": EH.Kind}
 
 
